@@ -41,6 +41,9 @@ def structure(draw, max_chains=3, nmax=6, wild=False, contact=True, waters=True,
                                    mode=draw(st.sampled_from(["tail", "tail", "gap", "backbone-O"])))  # fmt: skip
         chains.append(ch)
     desc = dict(chains=chains)
+    cols = draw(st.sampled_from([None, None, None, "no-element", "no-element", "short", "segid"]))
+    if cols:
+        desc["columns"] = cols  # PDB columns after the coordinates: element absent / line cut / segment id
     if cif and draw(st.integers(0, 3)) == 0:
         # the same structure handed over as mmCIF; half of these with multi-character chain ids
         desc["cif"] = dict(multi=draw(st.booleans()))
